@@ -417,6 +417,35 @@ m("C03","pay-fixed-share","x/storage/keeper/rewards.go",
 m("C03","double-burn","x/storage/keeper/rewards.go",
   '		k.burnContract(ctx, providerAddress)\n		return','		k.burnContract(ctx, providerAddress)\n		k.burnContract(ctx, providerAddress)\n		return',"C03/R2","rewards:path-classes")
 
+# ---- C12
+m("C12","release-ignores-balance","x/storage/keeper/rewards.go",
+  'newBalance := wouldBeBalance.Sub(b)','newBalance := wouldBeBalance\n\t\t\t_ = b',"C12/R1","gauge:release-dependence")
+m("C12","release-uses-start-as-now","x/storage/keeper/rewards.go",
+  'timeLeft := pg.End.Sub(currentTime)','timeLeft := pg.End.Sub(pg.Start)',"C12/R1","gauge:release-dependence")
+m("C12","pool-differs-from-sent","x/storage/keeper/rewards.go",
+  'coinsToDistribute = coinsToDistribute.Add(c)','coinsToDistribute = coinsToDistribute.Add(coin)',"C12/R1","gauge:released=pooled")
+m("C12","delete-nonempty-third-place","x/storage/keeper/rewards.go",
+  """			if amt64 == 0 {
+				continue
+			}""","""			if amt64 == 0 {
+				k.RemoveGauge(ctx, pg.Id)
+				continue
+			}""","C12/R3","gauge:removed-undrained")
+m("C12","pull-without-interval-check","x/storage/keeper/rewards.go",
+  'if pg.End.Before(pg.Start) || pg.End.Equal(pg.Start) {','if pg.End.Before(pg.Start) {',"C12/R4","gauge:pull-guard:end-not-equal-start")
+m("C12","pull-past-end","x/storage/keeper/rewards.go",
+  'if pg.End.Before(currentTime) { // if the end date is before the current block time, we remove the gauge','if pg.End.Before(currentTime) && pg.End.Before(pg.Start) { // if the end date is before the current block time, we remove the gauge',"C12/R4","gauge:pull-guard:end-not-before-now")
+m("C12","pull-from-empty","x/storage/keeper/rewards.go",
+  """		if gaugeBalance.Empty() {
+			k.RemoveGauge(ctx, pg.Id)
+			return
+		}""","""		if gaugeBalance.Empty() && len(pg.Coins) == 0 {
+			k.RemoveGauge(ctx, pg.Id)
+			return
+		}""","C12/R4","gauge:pull-guard:balance-not-empty")
+m("C12","gauge-end-from-message","x/storage/keeper/msg_server_post_file.go",
+  'end := ctx.BlockTime().AddDate(0, 0, int(days))','end := ctx.BlockTime()',"C12/R3","gauge-end=blocktime+duration")
+
 for x in M:
     d = os.path.join(os.path.dirname(os.path.abspath(__file__)), x["property"])
     os.makedirs(d, exist_ok=True)
